@@ -27,6 +27,7 @@ func H_C14_arbitrary() {
 	vStepLimit(60000 + 20000*n)
 	ToObject(buf, tm)
 	vStepLimit(0)
+	vAllocCheck()
 	vAssert("returned", true)
 }
 
@@ -83,6 +84,7 @@ func H_C14_mutated() {
 	vStepLimit(100000 + 20000*len(in))
 	ToObject(in, tm)
 	vStepLimit(0)
+	vAllocCheck()
 	vAssert("returned", true)
 }
 
@@ -135,5 +137,67 @@ func H_C14_long_list_length() {
 	vStepLimit(3000000)
 	ToObject(wire, tm)
 	vStepLimit(0)
+	vAllocCheck()
+	vAssert("returned", true)
+}
+
+// H_C14_stream_mutated: a stream of two valid messages, the second damaged in one octet (or cut), read through
+// the streaming entry points: Serializer.ReadFrom + Read, Decoder.ReadObject twice.
+func H_C14_stream_mutated() {
+	m1, tm := zValidMessage(0)
+	m2, _ := zValidMessage([]int{1, 2, 9}[vChoice("second", 3)])
+	in := make([]byte, 0, len(m1)+len(m2))
+	in = append(in, m1...)
+	in = append(in, m2...)
+	if vChoice("damage", 2) == 0 {
+		in[len(m1)+vChoice("pos", len(m2))] = vUint8("octet")
+	} else {
+		in = in[:len(m1)+vChoice("cut", len(m2))]
+	}
+	vAllocBound(65536 + len(in))
+	vStepLimit(150000 + 20000*len(in))
+	if vChoice("api", 2) == 0 {
+		s := NewSerializer(tm, nil)
+		s.ReadFrom(&vCountingReader{b: in})
+		s.Read()
+	} else {
+		d := NewDecoder(&vCountingReader{b: in}, tm)
+		d.ReadObject()
+		d.ReadObject()
+	}
+	vStepLimit(0)
+	vAllocCheck()
+	vAssert("returned", true)
+}
+
+// H_C14_crosslinks: one message holding a self-containing list, typed int / string lists, an object with slice
+// and pointer fields, a map, and several back-references; one octet is damaged, so every back-reference index is
+// redirected to every other container (wrong kinds, wrong element types, cyclic values).
+func H_C14_crosslinks() {
+	tm := vZooTypeMap()
+	tm["[int"] = reflect.TypeOf([]int32{})
+	tm["[string"] = reflect.TypeOf([]string{})
+	obj := refCat(refClassDef("ZShare", []string{"a", "b", "c", "m", "n", "z"}),
+		[]byte{0x60, 0x51, 0x92, 0x51, 0x92, 0x51, 0x93}, // #4: the slice fields refer to #2, #2, #3
+		[]byte{'H'}, refStr("k"), []byte{0x51, 0x91, 'Z'}, // #5: a map whose value refers to #1
+		[]byte{'N'}, refInt(1))
+	msg := refCat([]byte{0x58}, refInt(7),
+		[]byte{0x79, 0x51, 0x91}, // #1: a list that contains itself
+		[]byte{0x72}, refStr("[int"), refInt(5), []byte{0x51, 0x91}, // #2: typed ints, 2nd element refers to #1
+		[]byte{0x71}, refStr("[string"), refStr("s"), // #3
+		obj,
+		[]byte{0x51, 0x94}, // the object again
+		[]byte{'H', 0x51, 0x93}, refInt(1), []byte{'Z'}, // #6: a map keyed by a list
+		[]byte{0x51, 0x95})
+	in := make([]byte, len(msg))
+	copy(in, msg)
+	if vChoice("damage", 2) == 0 {
+		in[vChoice("pos", len(msg))] = vUint8("octet")
+	}
+	vAllocBound(65536 + len(in))
+	vStepLimit(200000 + 20000*len(in))
+	ToObject(in, tm)
+	vStepLimit(0)
+	vAllocCheck()
 	vAssert("returned", true)
 }
